@@ -359,6 +359,8 @@ type launchObs struct {
 	survived   bool
 	stateLater string // /proc state when looked at again ("gone" when the process has disappeared)
 	took       time.Duration
+	started    time.Time
+	doneDuring time.Duration // Launch call -> the daemon entering Done() (from its predone marker); < 0 unknown
 	returned   time.Time
 }
 
@@ -391,7 +393,9 @@ func oneLaunch(dir, name string, limit time.Duration, direct bool) launchObs {
 	}
 	var o launchObs
 	o.name = name
+	o.doneDuring = -1
 	t0 := time.Now()
+	o.started = t0
 	call := func() (r res) {
 		defer func() {
 			if p := recover(); p != nil {
@@ -439,8 +443,11 @@ func oneLaunch(dir, name string, limit time.Duration, direct bool) launchObs {
 		o.pidMatches = ok && mp == o.pid
 		o.ranHandler = h
 		o.rightH = ok && h == name
-		_, perr := os.Stat(filepath.Join(dir, fmt.Sprintf("predone.%d", o.pid)))
+		pb, perr := os.ReadFile(filepath.Join(dir, fmt.Sprintf("predone.%d", o.pid)))
 		o.doneAtRet = perr == nil
+		if ns, err := strconv.ParseInt(strings.TrimSpace(string(pb)), 10, 64); perr == nil && err == nil {
+			o.doneDuring = time.Unix(0, ns).Sub(t0)
+		}
 		st := readStat(o.pid)
 		o.alive = st.ok && st.state != 'Z' && st.state != 'X'
 		o.ppid = st.ppid
@@ -524,6 +531,7 @@ func runC20(e *hk.Env) error {
 	self := os.Getpid()
 	cases, viols, groups, leakedTotal, notSurvived, hookMissing, timeouts, expectedFailures := 0, 0, 0, 0, 0, 0, 0, 0
 	observed := map[string]string{}
+	forcedCases, forcedAchieved := 0, 0
 	hookDetail := ""
 	classHist := map[string]int{}
 	ppidHist := map[string]int{}
@@ -811,6 +819,14 @@ func runC20(e *hk.Env) error {
 					hookMissing++
 					hookDetail = fmt.Sprintf("%s=%dms but Launch returned after %dms", envPause, sc.pause, o.took.Milliseconds())
 				}
+				// … and it is ACHIEVED when the daemon entered Done() while the launcher was still paused behind Start
+				// (a pause placed elsewhere, e.g. before the daemon is started, delays Launch as well but forces nothing)
+				if sc.pause >= sc.delay+150 && o.err == nil && o.doneDuring >= 0 {
+					forcedCases++
+					if o.doneDuring < time.Duration(sc.pause)*time.Millisecond {
+						forcedAchieved++
+					}
+				}
 			}
 			// the launchers are gone: this process has no child left (daemons of earlier groups are not our children)
 			g.gone = len(childrenOf(self)) == 0
@@ -873,6 +889,14 @@ func runC20(e *hk.Env) error {
 	e.Stats["distinct_nontrivial"] = len(scenarios) - max(0, stress-1)
 	e.Stats["launch_timeouts"] = timeouts
 	e.Stats["hook_missing"] = hookMissing
+	e.Stats["forced_schedule_cases"] = forcedCases
+	e.Stats["forced_schedule_achieved"] = forcedAchieved // Done() entered while the launcher was paused behind Start
+	if os.Getenv("VERIF_C20_UNREADABLE") == "1" {
+		e.Stats["launcher_shape"] = "not readable by the extractor: the forced schedule must be shown to have run"
+		if hookMissing == 0 && (forcedCases == 0 || 2*forcedAchieved < forcedCases) {
+			return fmt.Errorf("launcher shape not readable and the forced schedule was not achieved at run time (%d of %d forced launches had Done() entered during the pause): the ordering Notify-before-Done is not covered", forcedAchieved, forcedCases)
+		}
+	}
 	e.Stats["expected_failures_checked"] = expectedFailures
 	e.Stats["launcher_linger_ms_explored"] = lingers
 	e.Stats["launcher_program_variants"] = "post-stdout-short/long/4/bin, linger, linger+post-stdout (judged); post-stderr, pre-stdout (observed only)"
